@@ -21,4 +21,9 @@ TEXT = {
   "note": "Trusts the harness reference encoders. Invalid-text oracle only demands nil when a character outside alphabet+padding is present.",
   "technique": "round-trip + reference-encoder differential monitor over all lengths and input forms",
  },
+ "C01": {
+  "level": "Exploration: random programs over the whole control-flow grammar (all 8x8 construct nestings, empty bodies, zero-trip loops, recursion, redefinition, locals) are run through eval() and compared with an independent AST interpreter on stack, variables, output, error class and failing token; structurally infinite loops must still be running when the instruction budget ends. Release and overflow-checked builds.",
+  "note": "Trusts the reference evaluator (harness/src/g1.rs). Program size <= 200 nodes, nesting <= 8, 30000 reference steps.",
+  "technique": "differential monitor: real bytecode VM vs. direct structural (AST) evaluator over generated programs, with delta-debugging of witnesses",
+ },
 }
